@@ -208,7 +208,8 @@ def handle (op : String) (args : List String) (impl : Impl) : Option Ans :=
     -- spec: the instant denoted to within the resolution of a double of that magnitude:
     -- value in ts (counted from the scale's reference DATE) = (x − 15020[−2400000.5]) days ± (ulp(x) days + 1 ns)
     let sp := match impl, floatME x with
-      | .ok [r], some (mx, ex) => (match parseEp? r, gregorianEpochOffset ts with
+      | .ok [r], some (mx, ex) => (match parseEp? r, (Res.ok (Dur.fromTotal (refOffsetNs ts.name)) : Res Dur) with
+          -- (the scale's reference date-time from the SPEC calendar, not from the model's generated constants: audit 3)
           | some r, .ok g =>
             let c : Int := if op == "from_mjd" then 15020 * 86400000000000 else 2415020 * 86400000000000 + 43200000000000
             -- exact wanted ns·2^s: (mx·2^ex days − c ns)
